@@ -111,8 +111,26 @@ fn rows_of<C: Oracle>(s: &SeqSlice<C>) -> Vec<usize> {
         (0..C::len()).find(|&r| C::entry(r).sym == x).unwrap_or(usize::MAX)
     }).collect()
 }
+/// Content of length n.  Three calls in four: independent uniform symbols.  One call in four: STRUCTURED content - long runs of
+/// one symbol (the all-zero code, the all-ones / last symbol, or a random one) with run lengths around the word size - because
+/// uniformly random content never contains a whole storage word of identical symbols (e.g. poly-A = an all-zero word), and
+/// word-level fast paths key on exactly that.
 fn rand_rows<C: Oracle>(rng: &mut Rng, n: usize) -> Vec<usize> {
-    (0..n).map(|_| rng.below(C::len())).collect()
+    if n < 4 || rng.below(4) != 0 {
+        return (0..n).map(|_| rng.below(C::len())).collect();
+    }
+    let zero = (0..C::len()).find(|&r| C::entry(r).code == 0).unwrap_or(0);
+    let ones = (0..C::len()).max_by_key(|&r| C::entry(r).code).unwrap_or(0);
+    let per_word = (64 / C::BITS as usize).max(1);
+    let mut v = Vec::with_capacity(n);
+    while v.len() < n {
+        let sym = match rng.below(4) { 0 => zero, 1 => ones, 2 => zero, _ => rng.below(C::len()) };
+        let run = match rng.below(7) { 0 => 1, 1 => 2, 2 => per_word - 1, 3 => per_word, 4 => per_word + 1, 5 => 2 * per_word + 3, _ => 4 * per_word };
+        for _ in 0..run.max(1) {
+            if v.len() < n { v.push(sym); }
+        }
+    }
+    v
 }
 /// a slice with the given content starting at symbol offset `off` inside a longer parent
 fn with_offset<C: Oracle, R>(rows: &[usize], off: usize, rng: &mut Rng, f: impl FnOnce(&SeqSlice<C>) -> R) -> R {
